@@ -49,7 +49,7 @@ Fresh(p, mode, inject) ==
         cur |-> <<>>, execd |-> {}, live |-> {}, dropb |-> {}, pend |-> [op |-> "none"], flag |-> FALSE,
         mustpw |-> {}, stack |-> <<>>, creq |-> <<>>, cused |-> <<>>, armed |-> {}, mustloc |-> {},
         inject |-> inject, injected |-> FALSE, panicked |-> FALSE, canon |-> <<>>, ids |-> <<>>,
-        unwinding |-> {}, cbeg |-> {},
+        unwinding |-> {}, cbeg |-> {}, cbin |-> {},
         pslot |-> <<>>, pown |-> <<>>, allocs |-> 0]
 
 ev == Rec[l]
@@ -73,7 +73,7 @@ OnOp ==
         IF IsMutOp(ev.op)
         THEN st' = [st EXCEPT !.pend = ev]      \* a write takes effect when the writer proceeds (hook H4)
         ELSE st' = [st EXCEPT !.cur = Put(st.cur, 0, ev)]
-    ELSE st' = [st EXCEPT !.cur = Put(st.cur, T, ev)]
+    ELSE st' = [st EXCEPT !.cur = Put(st.cur, T, ev), !.cbin = st.cbin \ {T}]
 
 CycFix(kj) == kj > 0 /\ kj <= Len(P.fns) /\ P.fns[kj].kind \in {"fix", "fixjoin", "fb"}
 FixDepth(t) == Len(SelectSeq(Get(st.stack, t, <<>>), LAMBDA kj : CycFix(kj)))
@@ -84,7 +84,7 @@ OnRet ==
         anyInj == st.inject > 0 \/ st.injected
         s1 == [st EXCEPT !.cur = Put(st.cur, T, [op |-> "none"]), !.stack = Put(st.stack, T, <<>>),
                          !.mustpw = st.mustpw \ {T}, !.mustloc = st.mustloc \ {T}, !.armed = st.armed \ {T},
-                         !.unwinding = st.unwinding \ {T},
+                         !.unwinding = st.unwinding \ {T}, !.cbin = st.cbin \ {T},
                          !.panicked = st.panicked \/ (ev.ok = 0 /\ ev.kind \notin {"cancel_pw", "cancel_local"})]
     IN
     IF c.op = "get" THEN
@@ -245,16 +245,21 @@ TraceNext ==
          [] ev.e = "div" -> OnDiv
          [] ev.e = "trdint" -> OnTRdInt
          [] ev.e = "round" -> st' = [st EXCEPT !.live = {}, !.dropb = {}, !.cur = <<>>, !.stack = <<>>, !.mustpw = {}, !.pown = <<>>,
-                                              !.mustloc = {}, !.armed = {}, !.flag = FALSE, !.unwinding = {}, !.cbeg = {}]
+                                              !.mustloc = {}, !.armed = {}, !.flag = FALSE, !.unwinding = {}, !.cbeg = {}, !.cbin = {}]
          [] ev.e = "clone" -> st' = [st EXCEPT !.live = st.live \cup {ev.h}]
          [] ev.e = "drop_begin" -> st' = [st EXCEPT !.dropb = st.dropb \cup {ev.h}]
          [] ev.e = "drop_end" -> st' = [st EXCEPT !.live = st.live \ {ev.h}, !.dropb = st.dropb \ {ev.h}]
          [] ev.e = "dscf" -> st' = [st EXCEPT !.flag = TRUE]
          [] ev.e = "wproc" -> OnWproc
          [] ev.e = "wcc" -> OnWcc
-         [] ev.e = "cancel_begin" -> st' = [st EXCEPT !.creq = Put(st.creq, ev.h, Get(st.creq, ev.h, 0) + 1), !.cbeg = st.cbeg \cup {ev.h}]
+         [] ev.e = "cancel_begin" ->
+               st' = [st EXCEPT !.creq = Put(st.creq, ev.h, Get(st.creq, ev.h, 0) + 1), !.cbeg = st.cbeg \cup {ev.h},
+                                !.cbin = IF Get(st.cur, ev.h, [op |-> "none"]).op # "none" THEN st.cbin \cup {ev.h} ELSE st.cbin]
          [] ev.e = "cancel_end" ->
-               st' = [st EXCEPT !.armed = IF Get(st.cur, ev.h, [op |-> "none"]).op # "none" THEN st.armed \cup {ev.h} ELSE st.armed]
+               \* the handle must unwind only if the whole cancel() call fell inside its current computation: a call that
+               \* began during the previous one may have set the token before that computation's end reset it
+               st' = [st EXCEPT !.armed = IF Get(st.cur, ev.h, [op |-> "none"]).op # "none" /\ ev.h \in st.cbin
+                                          THEN st.armed \cup {ev.h} ELSE st.armed]
          [] ev.e = "inject" -> st' = [st EXCEPT !.injected = TRUE, !.unwinding = st.unwinding \cup {T}]
          [] ev.e = "hk" -> OnHk
          [] ev.e = "hang" ->
